@@ -944,6 +944,39 @@ def lct_first_word_rule(ctx, rule):
         else:
             rule.violation(key, "RFC 5651 field %s (bits %d..%d) carries %s" % (name, 31 - pos, 32 - pos - wd, rr), loc(w.sp))
         pos += wd
+    # which value sits in each flag position: A <- close_session, B <- close_object, CP <- codepoint, PSI <- psi
+    fl_w = Flow(w.body)
+    vdw = sl.var_defs()
+
+    def derives_from(leaf, param):
+        leaf = re.sub(r"\s+as\s+\w+|[()]", "", leaf or "")
+        if leaf == param:
+            return True
+        ds = [d for d in vdw.get(leaf, []) if d[0] == ""]
+        if not ds:
+            return False
+        okk = True
+        for (_, e_, bb_) in ds:
+            if e_[0] == "const":
+                # match arm: the constant is chosen by the parameter
+                fs = fl_w.facts_at(bb_)
+                if not any(param in show(a_[1]) + (show(a_[2]) if len(a_) > 2 and isinstance(a_[2], tuple) else "") for (a_, t_) in fs):
+                    okk = False
+                else:
+                    want1 = any(a_[0] == "true" and t_ and show(a_[1]) == param for (a_, t_) in fs)
+                    if (e_[2] == 1) != want1:
+                        okk = False
+            elif param not in show(sl.expand(e_), 200):
+                okk = False
+        return okk
+    for fld, param in (("A", "close_session"), ("B", "close_object"), ("CP", "codepoint"), ("PSI", "psi")):
+        if fld in flag_leaf:
+            key = "push_lct_header first word %s <- %s" % (fld, param)
+            if derives_from(flag_leaf[fld], param):
+                rule.ok(key, "leaf `%s`" % flag_leaf[fld], loc(w.sp))
+            else:
+                rule.violation(key, "the %s position carries `%s`, which is not derived from the `%s` argument: flute-to-flute traffic still works when the parser "
+                                    "is changed the same way, any RFC 5651 implementation reads the wrong flag" % (fld, flag_leaf[fld], param), loc(w.sp))
     # lengths of the three variable fields as affine forms over the flag leaves
     def appended(e):
         """number of bytes of  &arr[start..]  as an affine form"""
